@@ -4,6 +4,7 @@
 //!   `P <mode> <specs> <arg>*`                     one vector against the real `parse_arguments`
 //!   `S <cmd> <mode> <specs> <setup> <probe> <arg>* ( | <arg>* )*`  equivalent spellings of one invocation
 //!   `M <cmd> <mode> <specs> <setup> <probe> <arg>*`                a malformed invocation
+//!   `G <optstring> <arg>*`                        `while getopts optstring v arg…` run to the end in a virtual shell
 //!
 //! Observation of `P`: options (spec, spelling, argument) + operands, or the error class with the
 //! option character / spec(s) it names.  Oracle of `P` (independent of the Lean model): the clauses of
@@ -509,12 +510,175 @@ fn run_m(w: &[&str]) -> (String, String) {
     (obs, oracle)
 }
 
+
+// ------------------------------------------------------------------------------------------
+// `G`: the getopts built-in's own walker (yash-builtin/src/getopts/), driven like a script drives it
+
+struct GetoptsRun {
+    /// per successful call: option variable, $OPTARG (`~` = unset), $OPTIND
+    events: Vec<(String, String, String)>,
+    /// after the call that returned non-zero: status, variable, $OPTARG, $OPTIND (or `LOOP`)
+    end: Option<(String, String, String, String)>,
+    diag_lines: usize,
+}
+
+fn getopts_run(spec: &str, args: &[String]) -> GetoptsRun {
+    let mut call = format!("getopts {} v", sh_quote(spec));
+    for a in args {
+        call.push(' ');
+        call.push_str(&sh_quote(a));
+    }
+    let script = format!(
+        "n=0\nwhile :; do {call}; s=$?; case $s in 0) ;; *) break;; esac; echo \"$v|${{OPTARG-~}}|$OPTIND\"; \
+         n=$((n+1)); case $n in 60) echo LOOP; break;; esac; done\necho \"end|$s|$v|${{OPTARG-~}}|$OPTIND\"\n"
+    );
+    let o = shell::run_script(&script);
+    let mut events = vec![];
+    let mut end = None;
+    for l in o.stdout_str().lines() {
+        let f: Vec<&str> = l.split('|').collect();
+        if f.len() == 5 && f[0] == "end" {
+            end = Some((f[1].to_string(), f[2].to_string(), f[3].to_string(), f[4].to_string()));
+        } else if f.len() == 3 {
+            events.push((f[0].to_string(), f[1].to_string(), f[2].to_string()));
+        } else {
+            // LOOP or anything unexpected: no regular end
+            return GetoptsRun { events, end: None, diag_lines: o.stderr_str().lines().count() };
+        }
+    }
+    if o.stuck {
+        end = None;
+    }
+    GetoptsRun { events, end, diag_lines: o.stderr_str().lines().count() }
+}
+
+fn tilde_hex(s: &str) -> String {
+    if s == "~" { "~".into() } else { enc_str(s) }
+}
+
+fn show_getopts(r: &GetoptsRun) -> String {
+    let evs: Vec<String> =
+        r.events.iter().map(|(v, a, i)| format!("{},{},{}", enc_str(v), tilde_hex(a), i)).collect();
+    let end = match &r.end {
+        Some((s, v, a, i)) => format!("{},{},{},st{}", enc_str(v), tilde_hex(a), i, s),
+        None => "LOOP".into(),
+    };
+    format!("[{}] end={} diag={}", evs.join(";"), end, r.diag_lines)
+}
+
+/// 0 = no argument, 1 = takes an argument, 2 = unknown (the documented meaning of an optstring)
+fn g_judge(spec: &str, c: char) -> u8 {
+    if c == ':' {
+        return 2;
+    }
+    let cs: Vec<char> = spec.chars().collect();
+    match cs.iter().position(|&x| x == c) {
+        None => 2,
+        Some(i) => (cs.get(i + 1) == Some(&':')) as u8,
+    }
+}
+
+/// The fully separated spelling: every group in option position split into one argument per letter,
+/// attached option-arguments moved to the next argument.  Groups containing the letter `-` are kept.
+fn g_separate(spec: &str, args: &[String]) -> Vec<String> {
+    let mut out = vec![];
+    let mut i = 0;
+    while i < args.len() {
+        let cs: Vec<char> = args[i].chars().collect();
+        if cs.len() < 2 || cs[0] != '-' || args[i] == "--" {
+            break;
+        }
+        let letters = &cs[1..];
+        let keep = letters.contains(&'-');
+        let mut pending = false;
+        let mut parts = vec![];
+        let mut k = 0;
+        while k < letters.len() {
+            let c = letters[k];
+            if g_judge(spec, c) == 1 {
+                parts.push(format!("-{c}"));
+                if k + 1 < letters.len() {
+                    parts.push(letters[k + 1..].iter().collect());
+                } else {
+                    pending = true;
+                }
+                break;
+            }
+            parts.push(format!("-{c}"));
+            k += 1;
+        }
+        if keep {
+            out.push(args[i].clone());
+        } else {
+            out.extend(parts);
+        }
+        i += 1;
+        if pending && i < args.len() {
+            out.push(args[i].clone());
+            i += 1;
+        }
+    }
+    out.extend_from_slice(&args[i.min(args.len())..]);
+    out
+}
+
+/// what a script sees, independent of the spelling: (variable, OPTARG) per call, number of
+/// diagnostics, the operands left after `shift $((OPTIND-1))`
+fn g_property_view(args: &[String], r: &GetoptsRun) -> String {
+    let evs: Vec<String> = r.events.iter().map(|(v, a, _)| format!("{},{}", enc_str(v), tilde_hex(a))).collect();
+    let rest = match &r.end {
+        Some((s, v, a, i)) => match i.parse::<usize>() {
+            Ok(n) if n >= 1 => {
+                let ops: Vec<String> = args.iter().skip(n - 1).map(|a| enc_str(a)).collect();
+                format!("st{s},{},{} operands=[{}]", enc_str(v), tilde_hex(a), ops.join(","))
+            }
+            _ => format!("bad-OPTIND:{i}"),
+        },
+        None => "LOOP".into(),
+    };
+    format!("[{}] diag={} {}", evs.join(";"), r.diag_lines, rest)
+}
+
+fn run_g(w: &[&str]) -> (String, String) {
+    let bad = || ("bad-case".to_string(), "-".to_string());
+    if w.len() < 2 {
+        return bad();
+    }
+    let Some(spec) = dec_str(w[1]) else { return bad() };
+    let Some(args) = w[2..].iter().map(|a| dec_str(a)).collect::<Option<Vec<String>>>() else {
+        return bad();
+    };
+    let run = std::cell::RefCell::new(None);
+    let obs = guarded(|| {
+        let r = getopts_run(&spec, &args);
+        let s = show_getopts(&r);
+        *run.borrow_mut() = Some(r);
+        s
+    });
+    let oracle = guarded(|| {
+        let Some(r) = run.borrow_mut().take() else { return "-".into() };
+        let sep = g_separate(&spec, &args);
+        if sep == args {
+            return "-".into();
+        }
+        let r2 = getopts_run(&spec, &sep);
+        let (a, b) = (g_property_view(&args, &r), g_property_view(&sep, &r2));
+        if a == b {
+            "ok".into()
+        } else {
+            format!("FAIL:grouping: as given {a} but separated {:?} gives {b}", sep)
+        }
+    });
+    (obs, oracle)
+}
+
 fn run_case(case: &str) -> (String, String) {
     let w: Vec<&str> = case.split_whitespace().collect();
     match w.first() {
         Some(&"P") if w.len() >= 3 => run_p(case, &w),
         Some(&"S") => run_s(&w),
         Some(&"M") => run_m(&w),
+        Some(&"G") => run_g(&w),
         _ => ("bad-case".into(), "-".into()),
     }
 }
@@ -1035,6 +1199,99 @@ fn catalogue_cases(e: &mut Emitter, rng: &mut Rng, tables: &[(String, Vec<SpecD>
     }
 }
 
+/// optstrings and argument tokens of the getopts leg
+const G_SPECS: [&str; 12] = ["ab", "a:b", ":ab", ":a:b", "abo:", ":abo:", "o:", ":o:a", "a", "ba:o", ":", "ab-"];
+const G_TOKENS: [&str; 20] = [
+    "-a", "-b", "-ab", "-ba", "-axb", "-x", "-xa", "-o", "-oX", "-ao", "-aoX", "-abo", "-axo", "--", "-", "X", "-a-", "--a",
+    "", "-:a",
+];
+
+fn g_case(spec: &str, args: &[&str]) -> String {
+    let mut s = format!("G {}", enc_str(spec));
+    for a in args {
+        s.push(' ');
+        s.push_str(&enc_str(a));
+    }
+    s
+}
+
+fn getopts_cases(e: &mut Emitter, rng: &mut Rng, thorough: bool) {
+    // exhaustive: every optstring x every vector over the tokens up to length 2 (quick) / 3 (thorough)
+    let maxlen = if thorough { 3 } else { 2 };
+    for spec in G_SPECS {
+        let mut idx: Vec<usize> = vec![];
+        'vectors: loop {
+            if e.mine() {
+                let args: Vec<&str> = idx.iter().map(|&i| G_TOKENS[i]).collect();
+                let case = g_case(spec, &args);
+                let (obs, oracle) = run_case(&case);
+                emit(&case, &obs, &oracle);
+            }
+            let mut k = idx.len();
+            loop {
+                if k == 0 {
+                    if idx.len() == maxlen {
+                        break 'vectors;
+                    }
+                    idx = vec![0; idx.len() + 1];
+                    break;
+                }
+                k -= 1;
+                if idx[k] + 1 < G_TOKENS.len() {
+                    idx[k] += 1;
+                    for j in k + 1..idx.len() {
+                        idx[j] = 0;
+                    }
+                    break;
+                }
+            }
+        }
+    }
+    // random: random optstrings over a small alphabet, random groups of letters, longer vectors
+    let n = if thorough { 60_000 } else { 3_000 };
+    let letters = ['a', 'b', 'o', 'x', 'y', ':', '-', 'é'];
+    for _ in 0..n {
+        let mut r = rng.fork();
+        if !e.mine() {
+            continue;
+        }
+        let mut spec = String::new();
+        if r.chance(1, 2) {
+            spec.push(':');
+        }
+        for _ in 0..r.below(5) {
+            let c = *r.pick(&['a', 'b', 'o', 'y', 'é', '-']);
+            if c == '-' && spec.is_empty() {
+                continue; // an optstring starting with `-` would be taken as an option of getopts itself
+            }
+            spec.push(c);
+            if r.chance(1, 3) {
+                spec.push(':');
+            }
+        }
+        let len = r.below(6);
+        let mut args: Vec<String> = vec![];
+        for _ in 0..len {
+            let a = match r.below(10) {
+                0 => "--".to_string(),
+                1 => r.pick(&["X", "", "-", "a"]).to_string(),
+                _ => {
+                    let mut g = String::from("-");
+                    for _ in 0..1 + r.below(4) {
+                        g.push(*r.pick(&letters));
+                    }
+                    g
+                }
+            };
+            args.push(a);
+        }
+        let argv: Vec<&str> = args.iter().map(|s| s.as_str()).collect();
+        let case = g_case(&spec, &argv);
+        let (obs, oracle) = run_case(&case);
+        emit(&case, &obs, &oracle);
+    }
+}
+
 fn main() {
     quiet_panics();
     let o = Opts::from_args();
@@ -1053,6 +1310,9 @@ fn main() {
 
     // (ii) catalogue of real invocations (first: it is the slowest part, spread over the shards)
     catalogue_cases(&mut e, &mut rng, &tables, thorough);
+
+    // (iii) the getopts built-in's own walker
+    getopts_cases(&mut e, &mut rng, thorough);
 
     // (i) exhaustive: small tables x all vectors over the token set
     let small = small_tables(thorough);
